@@ -109,31 +109,31 @@ def _mag(self):
     return 1 + sum(abs(v) for v in spec.ot_transform(self))
 
 
-@contract("nanoemoji.paint.PaintTransform.gettransform", props=["C16", "C13"])
+@contract("nanoemoji.paint.PaintTransform.gettransform", props=["C16", "C13", "C05", "C03", "C01"])
 class gt_transform:
     args = {"self": _gt("PaintTransform", transform=TupleOf(Real, Real, Real, Real, Real, Real))}
     ensures = {"spec": lambda self, result: spec.aff(result) == spec.ot_transform(self)}
 
 
-@contract("nanoemoji.paint.PaintTranslate.gettransform", props=["C16", "C13"])
+@contract("nanoemoji.paint.PaintTranslate.gettransform", props=["C16", "C13", "C05", "C03", "C01"])
 class gt_translate:
     args = {"self": _gt("PaintTranslate", dx=Real, dy=Real)}
     ensures = {"spec": lambda self, result: spec.aff(result) == spec.ot_transform(self)}
 
 
-@contract("nanoemoji.paint.PaintScale.gettransform", props=["C16", "C13"])
+@contract("nanoemoji.paint.PaintScale.gettransform", props=["C16", "C13", "C05", "C03", "C01"])
 class gt_scale:
     args = {"self": _gt("PaintScale")}
     ensures = {"spec": lambda self, result: spec.aff(result) == spec.ot_transform(self)}
 
 
-@contract("nanoemoji.paint.PaintScaleUniform.gettransform", props=["C16", "C13"])
+@contract("nanoemoji.paint.PaintScaleUniform.gettransform", props=["C16", "C13", "C05", "C03", "C01"])
 class gt_scale_uniform:
     args = {"self": _gt("PaintScaleUniform")}
     ensures = {"spec": lambda self, result: spec.aff(result) == spec.ot_transform(self)}
 
 
-@contract("nanoemoji.paint.PaintScaleAroundCenter.gettransform", props=["C16", "C13"])
+@contract("nanoemoji.paint.PaintScaleAroundCenter.gettransform", props=["C16", "C13", "C05", "C03", "C01"])
 class gt_scale_center:
     args = {"self": _gt("PaintScaleAroundCenter")}
     ensures = {"spec": lambda self, result: spec.aff(result) == spec.ot_transform(self)}
@@ -141,7 +141,7 @@ class gt_scale_center:
     native_skip = ("spec",)
 
 
-@contract("nanoemoji.paint.PaintScaleUniformAroundCenter.gettransform", props=["C16", "C13"])
+@contract("nanoemoji.paint.PaintScaleUniformAroundCenter.gettransform", props=["C16", "C13", "C05", "C03", "C01"])
 class gt_scale_uniform_center:
     args = {"self": _gt("PaintScaleUniformAroundCenter")}
     ensures = {"spec": lambda self, result: spec.aff(result) == spec.ot_transform(self)}
@@ -149,7 +149,7 @@ class gt_scale_uniform_center:
     native_skip = ("spec",)
 
 
-@contract("nanoemoji.paint.PaintRotate.gettransform", props=["C16", "C13"])
+@contract("nanoemoji.paint.PaintRotate.gettransform", props=["C16", "C13", "C05", "C03", "C01"])
 class gt_rotate:
     args = {"self": _gt("PaintRotate")}
     ensures = {"spec": lambda self, result: spec.aff(result) == spec.ot_transform(self)}
@@ -157,7 +157,7 @@ class gt_rotate:
     native_skip = ("spec",)
 
 
-@contract("nanoemoji.paint.PaintRotateAroundCenter.gettransform", props=["C16", "C13"])
+@contract("nanoemoji.paint.PaintRotateAroundCenter.gettransform", props=["C16", "C13", "C05", "C03", "C01"])
 class gt_rotate_center:
     args = {"self": _gt("PaintRotateAroundCenter")}
     ensures = {"spec": lambda self, result: spec.aff(result) == spec.ot_transform(self)}
@@ -165,7 +165,7 @@ class gt_rotate_center:
     native_skip = ("spec",)
 
 
-@contract("nanoemoji.paint.PaintSkew.gettransform", props=["C16", "C13"])
+@contract("nanoemoji.paint.PaintSkew.gettransform", props=["C16", "C13", "C05", "C03", "C01"])
 class gt_skew:
     args = {"self": _gt("PaintSkew")}
     ensures = {"spec": lambda self, result: spec.aff(result) == spec.ot_transform(self)}
@@ -174,7 +174,7 @@ class gt_skew:
     native_requires = lambda self: abs(self.xSkewAngle % 180 - 90) > 1 and abs(self.ySkewAngle % 180 - 90) > 1
 
 
-@contract("nanoemoji.paint.PaintSkewAroundCenter.gettransform", props=["C16", "C13"])
+@contract("nanoemoji.paint.PaintSkewAroundCenter.gettransform", props=["C16", "C13", "C05", "C03", "C01"])
 class gt_skew_center:
     args = {"self": _gt("PaintSkewAroundCenter")}
     ensures = {"spec": lambda self, result: spec.aff(result) == spec.ot_transform(self)}
